@@ -224,6 +224,19 @@ static void roundTrip(vh::Reporter& rep, const std::string& cls, const T& x, Q&&
     g_phase = cls + ":repack";
     if (qx != qy) rep.violation("query-dump-differs:" + cls, cls + ": public queries answer differently after round trip " + sdump::firstDiff(qx, qy, 120).substr(0, 400), witness + "\n" + sdump::firstDiff(qx, qy));
     rep.count("query_dump_bytes", (long)qx.size());
+    // a third, independently written observer for the Schedule: upstream's own getter based notion of equivalence
+    if constexpr (std::is_same_v<T, Schedule>) {
+        g_phase = cls + ":Schedule::cmp";
+        for (size_t k = 0; k < x.size(); ++k) {
+            rep.count("schedule_cmp_calls");
+            // (the function is written for restarted schedules and throws for some inputs, e.g. a UDA holding a UDQ name: then it
+            // has nothing to say about this step)
+            bool self = false;
+            try { self = Schedule::cmp(x, x, k); } catch (const std::exception&) { rep.count("schedule_cmp_not_usable_for_this_step"); continue; }
+            if (self && !Schedule::cmp(x, y, k)) { rep.violation("schedule-cmp-false-after-roundtrip", "Schedule::cmp(x, unpack(pack(x)), " + std::to_string(k) + ") is false while Schedule::cmp(x, x, " + std::to_string(k) + ") is true", witness); break; }
+        }
+        g_phase = cls + ":repack";
+    }
     if (n2 != n1) rep.violation("repack-length-differs:" + cls, cls + ": pack(unpack(pack(x))) has " + std::to_string(n2) + " bytes, pack(x) " + std::to_string(n1), witness);
     if (!consumed2) rep.violation("second-unpack-consumed-wrong-size:" + cls, cls + ": second unpack did not consume its buffer", witness);
     if (sdump::dump(z, dop) != dy) rep.violation("second-roundtrip-differs:" + cls, cls + ": second round trip changes the object", witness + "\n" + sdump::firstDiff(dy, sdump::dump(z, dop)));
